@@ -177,10 +177,18 @@ def run(ctx):
         mod = tm.atom_poly(("mod", n_, m_))
         want_guarded = tm.sub(m_, mod)
         want_unguarded = [tm.atom_poly(("mod", tm.sub(m_, mod), m_)), tm.atom_poly(("mod", tm.neg(n_), m_))]
-        guard = [a for a in par.ancestors(pl) if isinstance(a, ast.If) and par.inside(a, lp)]
-        if guard:
-            g = guard[0]
-            r = rules.compare_with_pivot(g.test, lambda x: tm.translate(sc.resolve(x)) == mod, negated=(par.branch_of(pl, g) == "orelse"))
+        # the guard may be an enclosing `if` or a preceding `if ...: continue` - both are path conditions of the patch loop
+        facts = rules.known_facts(par, pl, upto=lp)
+        if facts:
+            r, g = None, None
+            for t_, pol in facts:
+                r_ = rules.compare_with_pivot(t_, lambda x: tm.translate(sc.resolve(x)) == mod, negated=not pol)
+                if r_ is not None:
+                    r, g = r_, par.stmt_of(t_)
+                    break
+            if g is None:
+                g = par.stmt_of(facts[0][0])
+            gtest = facts[0][0] if r is None else None
             if r is not None and ((r[0] == "!=" and astx.const_value(r[1]) == 0) or (r[0] == ">" and astx.const_value(r[1]) == 0)):
                 o.holds(hf, g, f"patch only when {ntop} % {m_txt} != 0")
                 if cnt == want_guarded:
@@ -190,13 +198,12 @@ def run(ctx):
                 else:
                     o.undecided("patch count not understood", hf, pl)
             elif r is not None:
-                o.violated(hf, g, f"patch guard `{txt(g.test)}` is not `{ntop} % {m_txt} != 0`")
+                o.violated(hf, g, f"patch guard `{txt(g.test) if isinstance(g, ast.If) else txt(g)}` is not `{ntop} % {m_txt} != 0`")
             else:
-                tg = tm.translate(sc.resolve(g.test))
-                if m_txt.replace(f"[{i}]", "") in txt(sc.resolve(g.test)) and f"[{i}]" not in txt(sc.resolve(g.test)):
-                    o.violated(hf, g, f"divisibility is tested against `{txt(g.test)}`, not against the size of topology {i}")
+                if m_txt.replace(f"[{i}]", "") in txt(sc.resolve(gtest)) and f"[{i}]" not in txt(sc.resolve(gtest)):
+                    o.violated(hf, g, f"divisibility is tested against `{txt(gtest)}`, not against the size of topology {i}")
                 else:
-                    o.undecided(f"patch guard `{txt(g.test)}` not recognised", hf, g)
+                    o.undecided(f"patch guard `{txt(gtest)}` not recognised", hf, g)
         else:
             if cnt in want_unguarded:
                 o.holds(hf, pl, f"adds {tm.show(cnt)} stubs (0 when already divisible)")
